@@ -21,6 +21,8 @@ struct TypeM {
     file: usize,
     /// (target type index, form)
     refs: Vec<(usize, &'static str)>,
+    /// a second type of the same name lives in another crate (import clause only)
+    dup: bool,
 }
 
 #[derive(Clone, Debug)]
@@ -65,7 +67,7 @@ fn gen_ws(rng: &mut Rng) -> Ws {
             let st = stems.fresh(rng);
             let name = format!("{}{}", cap(&st), ["", "Item", "Info"][rng.below(3)]);
             let renamed = if rng.chance(1, 6) { Some(format!("{}Rn", cap(&st))) } else { None };
-            types.push(TypeM { stem: st, name, renamed, krate: *c, file: fi, refs: vec![] });
+            types.push(TypeM { stem: st, name, renamed, krate: *c, file: fi, refs: vec![], dup: false });
         }
     }
     // references: to earlier types only (acyclic), across files and crates
@@ -80,7 +82,7 @@ fn gen_ws(rng: &mut Rng) -> Ws {
                 if types[t].file == types[i].file {
                     "same-file"
                 } else {
-                    *rng.pick(&["crate-path", "super-path", "self-use", "use-crate"])
+                    *rng.pick(&["crate-path", "super-path", "self-use", "self-path", "use-crate"])
                 }
             } else {
                 *rng.pick(&FORMS[..6])
@@ -88,7 +90,28 @@ fn gen_ws(rng: &mut Rng) -> Ws {
             types[i].refs.push((t, form));
         }
     }
-    Ws { crates, files, types, same_named: false }
+    // same-named type in another crate: only the import clause is concerned by it
+    let mut same_named = false;
+    if k >= 2 && rng.coin() {
+        let local_targets: Vec<usize> = types.iter().flat_map(|t| t.refs.iter().filter(|(ti, _)| types[*ti].krate == t.krate && types[*ti].renamed.is_none()).map(|(ti, _)| *ti)).collect();
+        if !local_targets.is_empty() {
+            let ti = *rng.pick(&local_targets);
+            let other_crate = (types[ti].krate + 1 + rng.below(k - 1)) % k;
+            // a crate that itself refers to the name would be ambiguous Rust: leave those out
+            let refers = types.iter().any(|t| t.krate == other_crate && t.refs.iter().any(|(x, _)| *x == ti));
+            if let (false, Some(fi)) = (refers, files.iter().position(|(c, _)| *c == other_crate)) {
+                let mut d = types[ti].clone();
+                d.krate = other_crate;
+                d.file = fi;
+                d.refs.clear();
+                d.dup = true;
+                types[ti].dup = true;
+                types.push(d);
+                same_named = true;
+            }
+        }
+    }
+    Ws { crates, files, types, same_named }
 }
 
 fn render_ws(ws: &Ws) -> Vec<SrcFile> {
@@ -106,6 +129,7 @@ fn render_ws(ws: &Ws) -> Vec<SrcFile> {
                     "same-file" => target.name.clone(),
                     "crate-path" => format!("crate::{}", target.name),
                     "super-path" => format!("super::{}", target.name),
+                    "self-path" => format!("self::models::{}", target.name),
                     "self-use" => {
                         uses.insert(format!("use self::models::{};", target.name));
                         target.name.clone()
@@ -306,7 +330,16 @@ pub fn run(ctx: &Ctx) -> (Spec, Report) {
         for t in &r.ws.types {
             rep.count("types_located", 1);
             let want = expected_file_name(r.lang, &r.ws.crates[t.krate]);
-            let got = defined_in.get(&t.stem).cloned().unwrap_or_default();
+            let mut got = defined_in.get(&t.stem).cloned().unwrap_or_default();
+            if t.dup {
+                // both crates define a type of this name: this type's own crate file must be among them, and nothing else
+                let mut all_want: Vec<String> = r.ws.types.iter().filter(|x| x.stem == t.stem).map(|x| expected_file_name(r.lang, &r.ws.crates[x.krate])).collect();
+                all_want.sort();
+                got.sort();
+                if got == all_want {
+                    continue;
+                }
+            }
             if got != vec![want.clone()] {
                 rep.violate(
                     format!("C14|{lname}|partition|{}", if got.is_empty() { "type-missing" } else if got.len() > 1 { "type-in-two-files" } else { "type-in-wrong-file" }),
